@@ -7,6 +7,9 @@ CLAIMED={
  "C02":("runtime reference-model monitor: every RobustSign/Sign/OrderedCCW/CompareDistance(s)/SignDotProd call and every internal stage (hooked) is compared with exact big.Int arithmetic and a derived symbolic perturbation; Grassmann-Pluecker chirotope monitor on 5-tuples; rounding-error search against the code's own constants",
          "Held on every execution observed: ~2.7M (quick) / ~10^8 (thorough) hostile triples, 5-tuples and distance triples concentrated on exact and near degeneracies (separations 1e-300..pi); not a proof - a constant that is too small by less than the rounding error the search reaches is not detected; the evidence reports the closest approach to each bound.",
          "Trusted: internal/ref exact integer arithmetic + Leibniz-expansion SoS (self-checked each run by GP relations/antisymmetry), math/big, build tag verif exporting the stages unchanged.","DESIGN.md section 5 C02"),
+ "C03":("runtime reference-model monitor + operation-history monitor: every CrossingSign/VertexCrossing/EdgeOrVertexCrossing call is compared with the exact four-orientation criterion and the documented vertex rule; random operation words on one EdgeCrosser are shadowed by the current chain vertex only and every answer must equal the stateless reference; symmetry and VertexCrossing laws checked model-free",
+         "Held on every execution observed: ~10^6 (quick) / ~5*10^7 (thorough) quadruples incl. shared endpoints, exactly collinear and ulp-perturbed points, plus 4*10^4 / 2*10^6 crosser histories of 10-50 mixed calls. Exactly antipodal pairs are not edges and are skipped (counted).",
+         "Trusted: internal/ref orientation (exact + derived SoS), the library's Ortho() as definition of the reference direction.","DESIGN.md section 5 C03"),
 }
 NA_REASON="monitor not built yet in this session (planned in DESIGN.md section 5); will be claimed once its check exists and is silent on the unchanged tree"
 def main():
